@@ -124,6 +124,9 @@ func init() {
 				if r.Bool() {
 					c.Stream = StreamRecipe{Kind: "refenc-l2", Seed: r.Uint64(), Big: r.Chance(1, 100)}
 					c.RDict = 1 << 20
+					if r.Bool() {
+						c.RDict = -1 // exactly what the stream needs
+					}
 				} else {
 					w := genL2WCase(r, "src", false)
 					c.Stream = StreamRecipe{Kind: "lib", W: w}
